@@ -171,9 +171,12 @@ theorem reorder_is_permutation (ds : List Dir) : (reorder ds).dirs.Perm ds := re
       * extraction never raises;
       * every id the translation pass looks up (text nodes, included attributes, also the
         attributes inside messages and plural choices) is extracted unless it has no letter;
-      * every message id an `i18n:msg` directive looks up while rendering (`msgIdsW`; by
-        `msg_lookup_extracted` the stream the directive sees after the pass gives the same id)
-        is extracted.
+      * every message id an `i18n:msg` directive looks up while rendering is extracted
+        (`msgIdsW`: the id of the template's own stream; for content without directive-carrying
+        elements the stream the directive sees after the pass gives the same id for every
+        catalogue, `msg_lookup_extracted`; inside a directive-carrying element the pass hands the
+        letter-free text fragments to the catalogue as well — finding C19-fragments — and the
+        id is the same whenever the catalogue leaves those alone).
     The pair of ids an `i18n:choose` hands to `ngettext` is `choose_lookup_extracted`; the
     gettext calls made by template code are `code_calls_extracted`.  The remaining hypotheses
     are the recorded findings named above, each with its `decide`-checked witness. -/
